@@ -27,12 +27,11 @@ impl Sink {
 
 impl Sink {
     fn put(&mut self, buf: &[u8]) {
-        let mut i = 0;
-        while i < buf.len() {
-            self.data[self.len] = buf[i];
-            self.len += 1;
-            i += 1;
-        }
+        // one memcpy: a byte loop would be unwound to the global bound for every write whose
+        // length is symbolic (formatted numbers)
+        let n = buf.len();
+        self.data[self.len..self.len + n].copy_from_slice(buf);
+        self.len += n;
     }
 }
 
@@ -236,7 +235,7 @@ pub const POS_MAX: usize = 99_999;
 /// @bounds row, col <= 99999
 /// @encodes encoder::TTYEncoder::encode[CursorTo]
 #[cfg_attr(kani, kani::proof)]
-#[cfg_attr(kani, kani::unwind(24))]
+#[cfg_attr(kani, kani::unwind(10))]
 pub fn c05_cursor_to() {
     let row: usize = any();
     let col: usize = any();
@@ -268,7 +267,7 @@ pub fn any_move() -> i32 {
 /// @encodes encoder::TTYEncoder::encode[CursorMove]
 /// @timeout 900
 #[cfg_attr(kani, kani::proof)]
-#[cfg_attr(kani, kani::unwind(24))]
+#[cfg_attr(kani, kani::unwind(13))]
 pub fn c05_cursor_move() {
     let row: i32 = any_move();
     let col: i32 = any_move();
@@ -295,7 +294,7 @@ pub fn c05_cursor_move() {
 /// @encodes encoder::TTYEncoder::encode[Scroll]
 /// @timeout 900
 #[cfg_attr(kani, kani::proof)]
-#[cfg_attr(kani, kani::unwind(24))]
+#[cfg_attr(kani, kani::unwind(13))]
 pub fn c05_scroll() {
     let count: i32 = any_move();
     let sink = encode(caps(ColorDepth::TrueColor, false), TerminalCommand::Scroll(count));
@@ -314,7 +313,7 @@ pub fn c05_scroll() {
 /// @bounds count, start, end <= 99999
 /// @encodes encoder::TTYEncoder::encode[EraseChars], encoder::TTYEncoder::encode[ScrollRegion]
 #[cfg_attr(kani, kani::proof)]
-#[cfg_attr(kani, kani::unwind(24))]
+#[cfg_attr(kani, kani::unwind(10))]
 pub fn c05_erase_chars_scroll_region() {
     let count: usize = any();
     assume(count <= POS_MAX);
@@ -369,7 +368,7 @@ pub fn dec_mode_number(mode: DecMode) -> u32 {
 /// @bounds every DEC mode x enable x kitty_keyboard capability
 /// @encodes encoder::TTYEncoder::encode[DecModeSet], encoder::TTYEncoder::encode[DecModeGet], encoder::TTYEncoder::kitty_level
 #[cfg_attr(kani, kani::proof)]
-#[cfg_attr(kani, kani::unwind(24))]
+#[cfg_attr(kani, kani::unwind(8))]
 pub fn c05_dec_mode() {
     let mi: u8 = any();
     assume(mi < 9);
@@ -407,7 +406,7 @@ pub fn c05_dec_mode() {
 /// @bounds level <= 9999, both capability settings
 /// @encodes encoder::TTYEncoder::encode[KeyboardLevel]
 #[cfg_attr(kani, kani::proof)]
-#[cfg_attr(kani, kani::unwind(24))]
+#[cfg_attr(kani, kani::unwind(8))]
 pub fn c05_keyboard_level() {
     let level: usize = any();
     assume(level <= 9999);
@@ -516,7 +515,7 @@ pub fn hex_val(b: u8) -> u32 {
 /// @bounds every opaque colour, palette index <= 999, set and query
 /// @encodes encoder::TTYEncoder::encode[Color]
 #[cfg_attr(kani, kani::proof)]
-#[cfg_attr(kani, kani::unwind(24))]
+#[cfg_attr(kani, kani::unwind(10))]
 pub fn c05_color() {
     let which: u8 = any();
     assume(which < 3);
@@ -551,14 +550,49 @@ pub fn c05_color() {
     if query {
         cur.eat(b'?');
     } else {
-        // XParseColor `#rrggbb`, read back with the X11 rules
-        cur.eat(b'#');
-        let mut k = 0;
-        while k < 3 {
-            let hi = hex_val(cur.next());
-            let lo = hex_val(cur.next());
-            assert!(hi < 16 && lo < 16 && hi * 16 + lo == rgb[k] as u32, "C05: another colour was set");
-            k += 1;
+        // XParseColor, read back with the X11 rules: `#rrggbb`, or `rgb:r/g/b` with 1..4 hex
+        // digits per component scaled to the component's width
+        if cur.peek() == b'#' {
+            cur.eat(b'#');
+            let mut k = 0;
+            while k < 3 {
+                let hi = hex_val(cur.next());
+                let lo = hex_val(cur.next());
+                assert!(hi < 16 && lo < 16 && hi * 16 + lo == rgb[k] as u32, "C05: another colour was set");
+                k += 1;
+            }
+        } else {
+            cur.eat(b'r');
+            cur.eat(b'g');
+            cur.eat(b'b');
+            cur.eat(b':');
+            let mut k = 0;
+            while k < 3 {
+                let mut v: u32 = 0;
+                let mut n = 0;
+                let mut d = 0;
+                while d < 4 {
+                    if cur.more() && hex_val(cur.peek()) < 16 {
+                        v = v * 16 + hex_val(cur.peek());
+                        n += 1;
+                        cur.pos += 1;
+                    }
+                    d += 1;
+                }
+                // scale an n digit component to 8 bits as X11 does (h -> hh, hhh -> top 8 bits ...)
+                let scaled = match n {
+                    1 => v * 17,
+                    2 => v,
+                    3 => v >> 4,
+                    4 => v >> 8,
+                    _ => 999,
+                };
+                assert!(scaled == rgb[k] as u32, "C05: another colour was set");
+                if k < 2 {
+                    cur.eat(b'/');
+                }
+                k += 1;
+            }
         }
     }
     cur.eat(0x1b);
@@ -566,26 +600,19 @@ pub fn c05_color() {
     assert!(cur.finished(), "C05: OSC colour sequence malformed or followed by extra bytes");
 }
 
-/// XTGETTCAP `DCS + q name (; name)* ST`: every name byte as two hex digits
-/// @bounds one or two capability names of 2 / 1 arbitrary non-NUL ASCII bytes
+/// XTGETTCAP `DCS + q name ST`: every name byte as two hex digits
+/// @bounds one capability name of 2 arbitrary non-NUL ASCII bytes
 /// @encodes encoder::TTYEncoder::encode[Termcap]
-/// @timeout 900
 #[cfg_attr(kani, kani::proof)]
-#[cfg_attr(kani, kani::unwind(24))]
+#[cfg_attr(kani, kani::unwind(3))]
 pub fn c05_termcap() {
-    let b: [u8; 3] = any();
-    assume(b[0] > 0 && b[0] < 128 && b[1] > 0 && b[1] < 128 && b[2] > 0 && b[2] < 128);
-    let two: bool = any();
-    let mut names = Vec::with_capacity(2);
-    let mut s0 = String::with_capacity(4);
+    let b: [u8; 2] = any();
+    assume(b[0] > 0 && b[0] < 128 && b[1] > 0 && b[1] < 128);
+    let mut names = Vec::with_capacity(1);
+    let mut s0 = String::with_capacity(2);
     s0.push(b[0] as char);
     s0.push(b[1] as char);
     names.push(s0);
-    if two {
-        let mut s1 = String::with_capacity(4);
-        s1.push(b[2] as char);
-        names.push(s1);
-    }
     let sink = encode(caps(ColorDepth::TrueColor, false), TerminalCommand::Termcap(names));
     let mut cur = Cur::new(&sink);
     cur.eat(0x1b);
@@ -593,19 +620,12 @@ pub fn c05_termcap() {
     cur.eat(b'+');
     cur.eat(b'q');
     witness!(b[0] < 16, "name byte below 0x10");
-    let mut k = 0;
-    while k < 2 {
-        let hi = hex_val(cur.next());
-        let lo = hex_val(cur.next());
-        assert!(hi < 16 && lo < 16 && hi * 16 + lo == b[k] as u32, "C05: capability name is not two hex digits per byte");
-        k += 1;
-    }
-    if two {
-        cur.eat(b';');
-        let hi = hex_val(cur.next());
-        let lo = hex_val(cur.next());
-        assert!(hi < 16 && lo < 16 && hi * 16 + lo == b[2] as u32, "C05: second capability name garbled");
-    }
+    let hi = hex_val(cur.next());
+    let lo = hex_val(cur.next());
+    assert!(hi < 16 && lo < 16 && hi * 16 + lo == b[0] as u32, "C05: capability name is not two hex digits per byte");
+    let hi = hex_val(cur.next());
+    let lo = hex_val(cur.next());
+    assert!(hi < 16 && lo < 16 && hi * 16 + lo == b[1] as u32, "C05: capability name is not two hex digits per byte");
     cur.eat(0x1b);
     cur.eat(b'\\');
     assert!(cur.finished(), "C05: XTGETTCAP request malformed");
@@ -615,7 +635,7 @@ pub fn c05_termcap() {
 /// @bounds title of 3 printable ASCII characters; raw payload of 3 arbitrary bytes
 /// @encodes encoder::TTYEncoder::encode[Title], encoder::TTYEncoder::encode[Raw]
 #[cfg_attr(kani, kani::proof)]
-#[cfg_attr(kani, kani::unwind(24))]
+#[cfg_attr(kani, kani::unwind(8))]
 pub fn c05_title_raw() {
     let t: [u8; 3] = any();
     assume(t[0] >= 0x20 && t[0] < 0x7f && t[1] >= 0x20 && t[1] < 0x7f && t[2] >= 0x20 && t[2] < 0x7f);
@@ -683,13 +703,18 @@ impl SgrState {
 
 /// Reference SGR machine (ECMA-48 8.3.117 + xterm/kitty extensions for 38/48/58 and 4:n).
 /// Starts from `state`; returns the state after the parameters of `s`.
-pub fn sgr_run(s: &Seq, mut st: SgrState) -> SgrState {
+pub fn sgr_run(s: &Seq, st: SgrState) -> SgrState {
+    sgr_run_n::<NP>(s, st)
+}
+
+/// as `sgr_run` for sequences of at most `P` parameters (fixed trip count `P`)
+pub fn sgr_run_n<const P: usize>(s: &Seq, mut st: SgrState) -> SgrState {
     if s.n == 0 {
         return SgrState::reset();
     }
     let mut i = 0;
     let mut guard = 0;
-    while guard < NP {
+    while guard < P {
         if i < s.n {
             let p = s.nums[i];
             // sub-parameters belonging to p
@@ -845,9 +870,9 @@ pub fn any_color() -> (Option<RGBA>, Option<[u8; 3]>) {
 /// the requested colours and attributes (so it must start with a reset) and nothing else
 /// @bounds every opaque fg/bg (or none) x every underline style x every flag combination
 /// @encodes encoder::TTYEncoder::encode[Face], encoder::color_sgr_encode[TrueColor], encoder::Chunks
-/// @timeout 900
+/// @tier thorough @timeout 3000
 #[cfg_attr(kani, kani::proof)]
-#[cfg_attr(kani, kani::unwind(24))]
+#[cfg_attr(kani, kani::unwind(22))]
 pub fn c05_face_truecolor() {
     let (fg, fg_want) = any_color();
     let (bg, bg_want) = any_color();
@@ -957,9 +982,9 @@ pub fn dirty_state() -> SgrState {
 /// what the record says
 /// @bounds every modification record: reset x fg/bg/underline colour (any opaque or unchanged) x underline (unchanged or any of 6 styles) x bold/italic/blink/strike (unchanged/off/on)
 /// @encodes encoder::TTYEncoder::encode[FaceModify], encoder::color_sgr_encode[TrueColor], encoder::Chunks
-/// @timeout 900
+/// @tier thorough @timeout 3000
 #[cfg_attr(kani, kani::proof)]
-#[cfg_attr(kani, kani::unwind(24))]
+#[cfg_attr(kani, kani::unwind(22))]
 pub fn c05_face_modify_truecolor() {
     let a = any_modify();
     let sink = encode(caps(ColorDepth::TrueColor, false), TerminalCommand::FaceModify(a.m));
@@ -979,4 +1004,5 @@ pub fn c05_face_modify_truecolor() {
     assert!(from_dirty == modify_semantics(&a, dirty_state()), "C05: SGR does not perform the modification (from a set rendition)");
     assert!(from_clean == modify_semantics(&a, SgrState::reset()), "C05: SGR does not perform the modification (from the default rendition)");
 }
+
 
